@@ -40,6 +40,14 @@ def _set(G, f, a):
     G.fields[f].arr = a
 
 
+def observe(E, label, goal):
+    """an obligation about the callback call being made; the fact is NOT added to the path condition (fewer hypotheses: sound; keeps
+    the later invariant obligations as they were)"""
+    mark = len(E.pc)
+    E.prove(label, goal, "callback")
+    del E.pc[mark:]
+
+
 def make_setup(enter_given, leave_given):
     def f(S):
         n = S.int("n")
@@ -80,8 +88,16 @@ def make_setup(enter_given, leave_given):
         G.fields["clk"] = Sym(z3.IntVal(0), "int")
         G.py = dict(mark=0)
 
+        # Every callback call is checked, AT THE CALL, to be one of the events the property allows (this is `Step` of
+        # lean/TraverseRule.lean, clause by clause; what the callbacks saw so far is in the observation arrays ecnt/ev/lcnt/lv):
         def enter_model(E, args, kwargs):
             xz, prez = to_z3(args[0], "int"), to_z3(args[1], "oref")
+            par = z3.Select(P, xz)
+            seen, left = (lambda t: z3.Select(_arr(G, "ecnt"), t)), (lambda t: z3.Select(_arr(G, "lcnt"), t))
+            observe(E, "_traverse_dfs/enter/called-for-a-node-of-the-subtree-not-entered-before", z3.And(rng(xz), Sub(xz), seen(xz) == 0))
+            open_parent = [par >= 0, seen(par) == 1, prez == z3.Select(_arr(G, "ev"), par)] + ([left(par) == 0] if leave_given else [])
+            observe(E, "_traverse_dfs/enter/start-node-gets-None-any-other-node-the-value-its-parents-call-returned-and-the-parent-is-not-left-yet",
+                    z3.If(xz == root.z, prez == 0, z3.And(*open_parent)))
             v = fresh("oref", "entv")
             _set(G, "ecnt", z3.Store(_arr(G, "ecnt"), xz, z3.Select(_arr(G, "ecnt"), xz) + 1))
             _set(G, "epre", z3.Store(_arr(G, "epre"), xz, prez))
@@ -102,6 +118,13 @@ def make_setup(enter_given, leave_given):
                 ln = z3.IntVal(len(ch.items))
             else:
                 arr, ln = ch.cols[0], zint(ch.n)
+            seen, left = (lambda t: z3.Select(_arr(G, "ecnt"), t)), (lambda t: z3.Select(_arr(G, "lcnt"), t))
+            c_, j_ = z3.Int(fresh_name("c")), z3.Int(fresh_name("j"))
+            observe(E, "_traverse_dfs/leave/called-for-an-entered-node-not-left-before-all-of-whose-children-are-left",
+                    z3.And(rng(xz), Sub(xz), left(xz) == 0, *([seen(xz) == 1] if enter_given else []),
+                           z3.ForAll([c_], z3.Implies(z3.And(rng(c_), z3.Select(P, c_) == xz), left(c_) == 1))))
+            observe(E, "_traverse_dfs/leave/receives-exactly-the-values-its-childrens-calls-returned-in-table-order",
+                    z3.And(ln == nch(xz, n.z), z3.ForAll([j_], z3.Implies(z3.And(0 <= j_, j_ < ln), z3.Select(arr, j_) == z3.Select(_arr(G, "lv"), rrow(xz, j_))))))
             la = G.fields["largs"]
             la.val, la.lens = z3.Store(la.val, xz, arr), z3.Store(la.lens, xz, ln)
             v = fresh("oref", "lefv")
@@ -109,6 +132,8 @@ def make_setup(enter_given, leave_given):
             _set(G, "lv", z3.Store(_arr(G, "lv"), xz, v.z))
             return v
 
+        S.eng.assumptions.add("assumed-lemma:traverse client rule event model: the obligations _traverse_dfs/enter/... and _traverse_dfs/leave/... are the premises of Step.enter / "
+                              "Step.leave of lean/TraverseRule.lean (read clause by clause; ent / left = the callback was called with that node)")
         return dict(topology=(ids, pids), root=root, enter=Callback("enter", enter_model) if enter_given else None,
                     leave=Callback("leave", leave_model) if leave_given else None, G=G)
 
@@ -152,7 +177,7 @@ def inv0(which):
         P, n, root = T(v)
         dom, val, lens = cm_view(v["children_map"])
         i = to_z3(v["_k0"], "int")
-        k, j, a = z3.Int(fresh_name("k")), z3.Int(fresh_name("j")), z3.Int(fresh_name("a"))
+        k, j, a = z3.Ints("k_cm j_cm a_cm")  # fixed bound names: the same fact about the same map is the same term wherever it is stated
         pa = z3.Select(P, a)
         if which == "sizes":
             return z3.ForAll([k], z3.If(z3.Select(dom, k), z3.And(z3.Select(lens, k) == nch(k, i), nch(k, i) > 0), nch(k, i) == 0))
@@ -201,7 +226,7 @@ def inv1(which):
     def f(E, v, o):
         s = S1(v)
         P, n, root = s["P"], s["n"], s["root"]
-        x, p, c, j = (z3.Int(fresh_name(t)) for t in "xpcj")
+        x, p, c, j = (z3.Int(f"{t}_{which}") for t in "xpcj")  # fixed bound names: the same clause over the same state is the same term
         R = lambda t: z3.And(t >= 0, t < n)
         gE, gL, tE, tL, posE, posL = s["gE"], s["gL"], s["tE"], s["tL"], s["posE"], s["posL"]
         ENT, LEFT = (lambda t: sel(gE, t) == 1), (lambda t: sel(gL, t) == 1)
@@ -278,7 +303,7 @@ def inv2(which):
         dom, val, lens = cm_view(v["children_map"])
         chd = lambda q: sel(sel(val, me), q)
         cur = to_z3(v["cur"], "oref")
-        p, y, q = (z3.Int(fresh_name(t)) for t in "pyq")
+        p, y, q = (z3.Int(f"{t}_{which}") for t in "pyq")
         mine = lambda t: z3.And(t >= 0, t < n, sel(P, t) == me, nch(me, t) < j)  # t is one of the first j children of `me`
         if which == "stack-grows-by-the-children":
             return z3.And(s["ln"] == s0["ln"] + j,
@@ -339,13 +364,27 @@ def g_init(E, v):
     _set(G, "posE", z3.Store(_arr(G, "posE"), to_z3(v["root"], "int"), 0))
 
 
+def _assigns_result_of(callback, target):
+    """anchor: a simple assignment to `target` (unparsed text) whose right-hand side calls the callback `callback`; the names of
+    the other locals in it (`pre`, `children`) are free to change"""
+    def f(txt):
+        try:
+            st = ast.parse(txt).body[0]
+        except SyntaxError:
+            return False
+        return (isinstance(st, ast.Assign) and len(st.targets) == 1 and ast.unparse(st.targets[0]) == target
+                and any(isinstance(c, ast.Call) and isinstance(c.func, ast.Name) and c.func.id == callback for c in ast.walk(st.value)))
+
+    return f
+
+
 GHOST = [
     ("stack: list[tuple[int, bool]] = [(root, True)]", g_init),
     ("idx, is_enter = stack.pop()", g_iteration_starts),
-    ("cur = enter(idx, pre) if enter is not None else None", g_enter),
+    (_assigns_result_of("enter", "cur"), g_enter),
     ("stack.append((idx, False))", g_push_leave),
-    ("params[child] = cur", g_push_child),
-    ("vals[idx] = leave(idx, children) if leave is not None else None", g_leave),
+    ("stack.append((child, True))", g_push_child),  # the ghost position is taken where the frame is pushed (the value may be stored before or after)
+    (_assigns_result_of("leave", "vals[idx]"), g_leave),
 ]
 
 
@@ -403,6 +442,53 @@ def exit_hint(E, v):
     E.assumptions.add("assumed-lemma:tree_induction (P(root) and (P(parent x) -> P(x)) for subtree nodes => P on the subtree; depth witness) instantiated for P = entered")
 
 
+
+
+def _bound_names(t, cache={}):
+    """names of the variables bound by the quantifiers of a formula"""
+    key = t.get_id()
+    if key in cache and cache[key][0].eq(t):
+        return cache[key][1]
+    out, todo, seen = set(), [t], set()
+    while todo:
+        a = todo.pop()
+        if a.get_id() in seen:
+            continue
+        seen.add(a.get_id())
+        if z3.is_quantifier(a):
+            out.update(a.var_name(i) for i in range(a.num_vars()))
+            todo.append(a.body())
+        elif z3.is_app(a):
+            todo.extend(a.children())
+    cache[key] = (t, out)
+    return out
+
+
+def leave_branch_step(nm, uses=()):
+    """Proof step for the leave branch of the stack loop: popping a leave frame keeps invariant `nm`.  It is proved from an explicit
+    SUBSET of the path condition (sound): the quantifier-free facts (the popped frame read off the invariants, the branch taken, the
+    ghost updates) and, of the quantified facts, only invariant `nm` itself, `counts` and those named in `uses` - recognised by the fixed
+    names of their bound variables.  The solver's work then does not depend on the order or number of the other hypotheses (children
+    map, child counting, values, times, the bulk pop), nor on its seed.  The clause obligation that follows finds the very same term
+    among its hypotheses."""
+    allowed = {f"{t}_{w}" for w in (nm, "counts", *uses) for t in "xpcj"}
+
+    def h(E, v):
+        if "is_enter" not in v or "stack" not in v:
+            return
+        if E.feasible(to_z3(v["is_enter"], "bool")):
+            return  # the enter branch needs the children map and the inner loop's invariants: proved from the whole path condition
+        from pyvc.engine import Oblig
+
+        goal = inv1(nm)(E, v, None)
+        hyps = [f for f in E.pc if _bound_names(f) <= allowed]
+        note = "annotation [context: quantifier-free facts + invariants " + ", ".join((nm, "counts", *uses)) + "]" + (f" [variant {E.variant}]" if getattr(E, "variant", "") else "")
+        E.obligs.append(Oblig(f"{E.prop}/_traverse_dfs/step/popping-a-leave-frame-keeps/{nm}", hyps, goal, "annotation", note))
+        E.pc.append(goal)
+
+    return h
+
+
 # --------------------------------------------------------------------------- proof annotations (each is its own obligation)
 def ann_top_frame(E, v, o):
     """the frame just popped, read off the invariants at its position (= the new stack length)"""
@@ -425,7 +511,9 @@ def ann_children_untouched(E, v, o):
     me = to_z3(v["idx"], "int")
     c, p = z3.Int(fresh_name("c")), z3.Int(fresh_name("p"))
     kids = z3.ForAll([c], z3.Implies(z3.And(c >= 0, c < n, sel(P, c) == me), z3.And(c != root, c != me, sel(s["gE"], c) == 0, sel(s["gL"], c) == 0)))
-    frames = z3.ForAll([p], z3.Implies(z3.And(0 <= p, p < ln), z3.And(sel(s["idx"], p) != me, z3.Or(sel(s["idx"], p) == root, sel(P, sel(s["idx"], p)) != me))))
+    # "below the frame just popped" = positions < posE[me] (the popped enter frame sat there; the leave frame of `me` may or may not be pushed yet)
+    below = sel(s["posE"], me)
+    frames = z3.ForAll([p], z3.Implies(z3.And(0 <= p, p < below), z3.And(sel(s["idx"], p) != me, z3.Or(sel(s["idx"], p) == root, sel(P, sel(s["idx"], p)) != me))))
     return z3.And(kids, frames)
 
 
@@ -440,6 +528,8 @@ def register(R: Registry):
                   "enter-after-parent-with-the-parents-value", "leave-after-all-children-with-exactly-their-values", "returns-the-start-nodes-value",
                   "every-subtree-node-entered-and-left-structurally"]
     hints = {("post/" + posts_both[-1]): exit_hint}
+    for nm in ("pending-leave-frame", "children-of-entered"):
+        hints["loop1/preserved/" + nm] = leave_branch_step(nm)
     R.add(
         f"{BASE}:_traverse_dfs",
         prop="C04",
@@ -451,9 +541,179 @@ def register(R: Registry):
             2: dict(invariant=INV2, modifies=["G"]),
         },
         returns="oref",
-        options=dict(ghost_after=GHOST, hints=hints, asserts_after=ANNOT, modular=True),
+        options=dict(ghost_after=GHOST, hints=hints, asserts_after=ANNOT, modular=True, truth_hook=lambda E, x: truth_of_callback_values(E, x)),
         notes="callbacks are arbitrary (uninterpreted results, recorded by ghost observation arrays); termination of the stack loop is not proved",
     )
+
+
+# =========================================================================== the same function on EVERY parent table of at most NMAX nodes
+# Second registration of `_traverse_dfs` (allowed: obligations of equal name are merged).  The table, the start node and which
+# callbacks are given are concrete, the callbacks stay arbitrary (fresh uninterpreted results, arbitrary truthiness); no loop
+# contract: the three loops simply execute.  The postconditions are the same clauses of the property, evaluated over the LOG OF THE
+# CALLBACK CALLS ACTUALLY MADE, so they do not rest on any invariant: a change of a loop body that the symbolic-size proof can only
+# report as "invariant no longer provable" (internal obligation, exit 2) shows here as a counter-model of a postcondition.
+NMAX = 4
+
+
+def parent_tables(nmax=NMAX):
+    """every parent table with node 0 as the root, ids = positions, any numbering (not only parent-first), 1..nmax nodes"""
+    import itertools
+
+    out = []
+    for n in range(1, nmax + 1):
+        for rest in itertools.product(range(n), repeat=n - 1):
+            pid = (-1,) + rest
+            ok = True
+            for x in range(1, n):
+                seen, y = set(), x
+                while y != 0 and y not in seen:
+                    seen.add(y)
+                    y = pid[y]
+                ok = ok and y == 0
+            if ok:
+                out.append(pid)
+    return out
+
+
+class Log:
+    """ghost call log of one run on a concrete table: events (kind, node, argument, returned value, list snapshot, list uid) in call order"""
+
+    def __init__(self, pid, root):
+        self.pid, self.root, self.n, self.events = tuple(pid), root, len(pid), []
+        self.kids = {x: [c for c in range(self.n) if pid[c] == x] for x in range(self.n)}  # children in table order
+        sub, todo = set(), [root]
+        while todo:  # the subtree of the start node: least set containing it and closed under children
+            x = todo.pop()
+            if x not in sub:
+                sub.add(x)
+                todo.extend(self.kids[x])
+        self.sub = sub
+
+    def calls(self, kind, x=None):
+        return [(t, e) for t, e in enumerate(self.events) if e[0] == kind and (x is None or (isinstance(e[1], int) and e[1] == x))]
+
+
+def _node(x):
+    try:
+        import numpy as _np
+
+        return int(x) if isinstance(x, (int, _np.integer)) and not isinstance(x, bool) else x
+    except Exception:
+        return x
+
+
+def _same_value(a, b):
+    """z3 Bool / bool: the two callback values are the same object (None = the null reference)"""
+    try:
+        return to_z3(a, "oref") == to_z3(b, "oref")
+    except TypeError:
+        return a is b
+
+
+def fixed_setup(pid, root, enter_given, leave_given):
+    def f(S):
+        from pyvc.values import NArr
+
+        n = len(pid)
+        log = Log(pid, root)
+
+        def enter_model(E, args, kwargs):
+            v = fresh("oref", "entv")
+            log.events.append(("enter", _node(args[0]), args[1] if len(args) > 1 else kwargs, v, None, None))
+            return v
+
+        def leave_model(E, args, kwargs):
+            ch = args[1] if len(args) > 1 else None
+            v = fresh("oref", "lefv")
+            items = list(ch.items) if isinstance(ch, PList) and ch.items is not None else None
+            log.events.append(("leave", _node(args[0]), ch, v, items, getattr(ch, "uid", None)))
+            return v
+
+        ids, pids = NArr((n,), list(range(n)), "int"), NArr((n,), list(pid), "int")
+        ids.frozen = pids.frozen = True
+        return dict(topology=(ids, pids), root=root, enter=Callback("enter", enter_model) if enter_given else None,
+                    leave=Callback("leave", leave_model) if leave_given else None, F=log)
+
+    return f
+
+
+def fixed_post(which):
+    def f(E, v, o):
+        if "F" not in v:
+            return True
+        L = v["F"]
+        zand = lambda xs: z3.And(*[x if not isinstance(x, bool) else z3.BoolVal(x) for x in xs]) if xs else True
+        once = lambda kind: all(len(L.calls(kind, x)) == (1 if x in L.sub else 0) for x in range(L.n)) and len(L.calls(kind)) == len(L.sub)
+        if which.startswith("enter") and v["enter"] is None:
+            return True
+        if which.startswith("leave") and v["leave"] is None:
+            return True
+        if which == "enter-exactly-once-per-subtree-node-and-never-outside":
+            return once("enter")
+        if which == "leave-exactly-once-per-subtree-node-and-never-outside":
+            return once("leave")
+        if which == "enter-after-parent-with-the-parents-value":
+            if not once("enter"):
+                return False
+            out = []
+            for x in sorted(L.sub):
+                (t, e), = L.calls("enter", x)
+                if x == L.root:
+                    out.append(_same_value(e[2], None))
+                    continue
+                (tp, ep), = L.calls("enter", L.pid[x])
+                out += [tp < t, _same_value(e[2], ep[3])]
+            return zand(out)
+        if which == "leave-after-all-children-with-exactly-their-values":
+            if not once("leave") or (v["enter"] is not None and not once("enter")):
+                return False
+            out = []
+            for x in sorted(L.sub):
+                (t, e), = L.calls("leave", x)
+                if v["enter"] is not None:
+                    out.append(L.calls("enter", x)[0][0] < t)
+                kids = L.kids[x]
+                if e[4] is None or len(e[4]) != len(kids):
+                    return False
+                for j, c in enumerate(kids):  # the j-th value is the one the leave call of the j-th child (table order) returned, made earlier
+                    (tc, ec), = L.calls("leave", c)
+                    out += [tc < t, _same_value(e[4][j], ec[3])]
+            return zand(out)
+        if which == "leave-receives-a-list-of-its-own-at-every-call":
+            uids = [e[5] for _, e in L.calls("leave")]
+            return all(u is not None and u not in E.entry_uids for u in uids) and len(set(uids)) == len(uids)
+        if which == "returns-the-start-nodes-value":
+            if v["leave"] is None:
+                return v["result"] is None
+            hits = L.calls("leave", L.root)
+            return len(hits) == 1 and _same_value(v["result"], hits[0][1][3])
+        raise KeyError(which)
+
+    return f
+
+
+Truthy = z3.Function("Truthy", I, B)  # bool(v) of an arbitrary object v handed back by a callback (None is false, nothing else is known)
+
+
+def truth_of_callback_values(E, v):
+    """`if cur:` on a value a callback returned: the kind `oref` alone does not decide it (0, '', [] and False are not None)"""
+    if isinstance(v, Sym) and v.kind == "oref":
+        return E.sbool(z3.And(v.z != 0, Truthy(v.z)))
+    return NotImplemented
+
+
+def register_fixed(R):
+    variants = {}
+    for pid in parent_tables():
+        for root in range(len(pid)):
+            for nm, (e, l) in (("enter+leave", (True, True)), ("enter-only", (True, False)), ("leave-only", (False, True))):
+                variants[f"table {list(pid)} start {root} {nm}"] = fixed_setup(pid, root, e, l)
+    posts = ["enter-exactly-once-per-subtree-node-and-never-outside", "leave-exactly-once-per-subtree-node-and-never-outside",
+             "enter-after-parent-with-the-parents-value", "leave-after-all-children-with-exactly-their-values",
+             "leave-receives-a-list-of-its-own-at-every-call", "returns-the-start-nodes-value"]
+    R.add(f"{BASE}:_traverse_dfs", prop="C04", variants=variants, ensures=[(nm, fixed_post(nm)) for nm in posts],
+          options=dict(truth_hook=truth_of_callback_values),
+          notes=f"every parent table of at most {NMAX} nodes x every start node x which callbacks are given; callbacks arbitrary; loops executed, not cut")
 
 
 # =========================================================================== wrappers: traverse, Tree.traverse, Tree.Node.traverse
@@ -473,36 +733,69 @@ def register_wrappers(R):
     from pyvc.spec import SpecFn  # noqa: F401
 
     # ---- swc_utils.traverse: mode dispatch
-    def tr_setup(S):
-        n = S.int("n")
-        S.assume(n.z >= 1)
-        return dict(topology=(S.arr("int", n=n, name="ids"), S.arr("int", n=n, name="pids")), mode="dfs",
-                    kwargs=PDict(dict(enter=Callback("enter", lambda E, a, k: fresh("oref", "e")), leave=Callback("leave", lambda E, a, k: fresh("oref", "l")), root=S.int("root"))))
+    # Variants: which of enter / leave / root the caller passes (what is omitted must reach _traverse_dfs as ITS default: no callback,
+    # start node 0), and the `mode` argument: omitted, "dfs", or something else (then ValueError and nothing is traversed).
+    def tr_setup(mode, given):
+        def f(S):
+            n = S.int("n")
+            S.assume(n.z >= 1)
+            called = []
+            kw = {}
+            if "enter" in given:
+                kw["enter"] = Callback("enter", lambda E, a, k: (called.append("enter"), fresh("oref", "e"))[1])
+            if "leave" in given:
+                kw["leave"] = Callback("leave", lambda E, a, k: (called.append("leave"), fresh("oref", "l"))[1])
+            if "root" in given:
+                kw["root"] = S.int("root")
+            d = dict(topology=(S.arr("int", n=n, name="ids"), S.arr("int", n=n, name="pids")), kwargs=PDict(kw), __ghost__=dict(called=called))
+            if mode is not None:
+                d["mode"] = mode
+            return d
+
+        return f
+
+    def _same_arg(E, a, b):
+        if a is None or b is None or isinstance(a, Callback) or isinstance(b, Callback):
+            return a is b
+        return to_z3(a, "int") == to_z3(b, "int")
 
     def tr_post(E, v, o):
         if E.cur_key != f"{BASE}:traverse":
             return True  # effect clause about the callee's own execution: says nothing at a call site
         calls = [kw for nm, kw in E.call_log if nm == "_traverse_dfs"]
-        if len(calls) != 1:
-            return False
+        if len(calls) != 1 or E.spec_extra["called"]:
+            return False  # exactly one delegation, and the dispatcher itself calls no callback
         c = calls[0]
         kw = v["kwargs"].items
-        return z3.And(c["topology"] is v["topology"], c["enter"] is kw["enter"], c["leave"] is kw["leave"], E.is_same(c["root"], kw["root"]) is True or to_z3(c["root"], "int") == to_z3(kw["root"], "int"),
+        return z3.And(c["topology"] is v["topology"], c["enter"] is kw.get("enter"), c["leave"] is kw.get("leave"), _same_arg(E, c["root"], kw.get("root", 0)),
                       to_z3(v["result"], "oref") == to_z3(c["__result__"], "oref"))
 
-    R.add(f"{BASE}:traverse", prop="C04", setup=tr_setup, returns="oref", options=dict(modular=True),
-          ensures=[("delegates-once-to-the-iterative-dfs-with-the-same-arguments-and-returns-its-result", tr_post)])
-    R.add(f"{BASE}:traverse#bad-mode", prop="C04") if False else None
+    def tr_bad_mode(E, v, o):
+        return v["mode"] != "dfs" and not E.call_log and not E.spec_extra["called"]
+
+    tr_variants = {}
+    for mode, mname in ((None, "mode omitted"), ("dfs", "mode dfs"), ("bfs", "mode bfs"), ("", "mode empty"), ("DFS", "mode DFS")):
+        for given in (("enter", "leave", "root"), ("enter",), ("leave", "root"), ()):
+            tr_variants[f"{mname}; passes {' '.join(given) or 'nothing'}"] = tr_setup(mode, given)
+    R.add(f"{BASE}:traverse", prop="C04", variants=tr_variants, returns="oref", options=dict(modular=True),
+          raises={"ValueError": ("any-mode-but-dfs-and-nothing-was-traversed", tr_bad_mode)},
+          ensures=[("delegates-once-to-the-iterative-dfs-with-the-same-arguments-and-returns-its-result", tr_post),
+                   ("returns-normally-only-in-dfs-mode", lambda E, v, o: True if E.cur_key != f"{BASE}:traverse" else v["mode"] == "dfs")])
 
     # ---- Tree.traverse: callbacks receive node handles of the same tree, same ids, same other arguments
     from contracts.common import col, nof, sym_tree
 
-    def tt_setup(enter_given, leave_given):
+    def tt_setup(enter_given, leave_given, extra=("root",)):
         def f(S):
             t = sym_tree(S, "t", frozen=True)
             elog, llog = [], []
-            d = dict(self=t, enter=_cb("enter", elog) if enter_given else None, leave=_cb("leave", llog) if leave_given else None, kwargs=PDict(dict(root=S.int("root"))))
-            d["__ghost__"] = dict(elog=elog, llog=llog)
+            kw = {}
+            if "root" in extra:
+                kw["root"] = S.int("root")
+            if "mode" in extra:
+                kw["mode"] = "dfs"
+            d = dict(self=t, enter=_cb("enter", elog) if enter_given else None, leave=_cb("leave", llog) if leave_given else None, kwargs=PDict(kw))
+            d["__ghost__"] = dict(elog=elog, llog=llog, passed=dict(kw))
             return d
 
         return f
@@ -513,7 +806,10 @@ def register_wrappers(R):
         v["__calls__"] = calls
         if len(calls) != 1:
             return
-        kw = calls[0]["kwargs"].items if isinstance(calls[0].get("kwargs"), PDict) else {}
+        kw = dict(calls[0]["kwargs"].items) if isinstance(calls[0].get("kwargs"), PDict) and calls[0]["kwargs"].items is not None else {}
+        for nm in ("enter", "leave"):  # swc_utils.traverse collects them in **kwargs today; a signature that names them is followed too
+            if nm in calls[0]:
+                kw[nm] = calls[0][nm]
         t = v["self"]
         k = fresh("int", "k")
         E.assume(z3.And(k.z >= 0, k.z < nof(t)))
@@ -529,7 +825,19 @@ def register_wrappers(R):
             probe[nm] = dict(k=k, extra=extra, ret=r, seen=log[before:])
         v["__probe__"] = probe
 
-    def tt_post(E, v, o):
+    def _call_arg(c, name, default=None):
+        """argument `name` of a logged call, whether the callee names it as a parameter or collects it in **kwargs"""
+        if name in c and name != "kwargs":
+            return c[name]
+        kw = c.get("kwargs")
+        if isinstance(kw, PDict) and kw.items is not None and name in kw.items:
+            return kw.items[name]
+        return default
+
+    def _same_int(a, b):
+        return to_z3(a, "int") == to_z3(b, "int")
+
+    def tt_post(E, v, o, only_delegation=False):
         if E.cur_key != f"{TREE}:Tree.traverse":
             return True
         calls = v.get("__calls__", [])
@@ -538,13 +846,17 @@ def register_wrappers(R):
         c = calls[0]
         t = v["self"]
         topo = c["topology"]
-        kw = c["kwargs"].items
-        ok = [topo[0] is col(t, "id"), topo[1] is col(t, "pid"), c["mode"] == "dfs",
-              to_z3(kw["root"], "int") == to_z3(v["kwargs"].items["root"], "int"), to_z3(v["result"], "oref") == to_z3(c["__result__"], "oref")]
+        passed = E.spec_extra["passed"]  # what the caller passed besides the callbacks: the start node and / or the mode, or nothing
+        # the WHOLE table of this tree (the very id / pid columns), the caller's start node (node 0 if none) and mode ("dfs" if none)
+        ok = [isinstance(topo, tuple) and len(topo) == 2 and topo[0] is col(t, "id"), isinstance(topo, tuple) and len(topo) == 2 and topo[1] is col(t, "pid"),
+              _call_arg(c, "mode", "dfs") == passed.get("mode", "dfs"), _same_int(_call_arg(c, "root", 0), passed.get("root", 0)),
+              to_z3(v["result"], "oref") == to_z3(c["__result__"], "oref")]
+        if only_delegation:
+            return z3.And(*[x if not isinstance(x, bool) else z3.BoolVal(x) for x in ok])
         for nm in ("enter", "leave"):
             user = v[nm]
             if user is None:
-                ok.append(kw.get(nm) is None)
+                ok.append(_call_arg(c, nm) is None)
                 continue
             pr = v["__probe__"][nm]
             if pr is None or len(pr["seen"]) != 1:
@@ -559,32 +871,46 @@ def register_wrappers(R):
         return z3.And(*[x if not isinstance(x, bool) else z3.BoolVal(x) for x in ok])
 
     R.add(f"{TREE}:Tree.traverse", prop="C04",
-          variants={"enter+leave": tt_setup(True, True), "enter-only": tt_setup(True, False), "leave-only": tt_setup(False, True)},
+          variants={"enter+leave": tt_setup(True, True), "enter-only": tt_setup(True, False), "leave-only": tt_setup(False, True),
+                    "enter+leave, no start node given": tt_setup(True, True, ()), "leave-only, no start node given": tt_setup(False, True, ()),
+                    "enter+leave, start node and mode given": tt_setup(True, True, ("root", "mode"))},
           ghost_exit=tt_exit, returns="oref",
           # the wrapper hands closures to swc_utils.traverse; its contract does not rely on their effects (it probes them itself)
           options=dict(modular=True, modular_traverse_ok=True),
-          ensures=[("callbacks-see-handles-of-the-same-nodes-and-values-pass-through-unchanged", tt_post)])
+          ensures=[("delegates-once-with-the-whole-table-of-this-tree-the-callers-start-node-and-mode-and-returns-the-result", lambda E, v, o: tt_post(E, v, o, True)),
+                   ("callbacks-see-handles-of-the-same-nodes-and-values-pass-through-unchanged", tt_post)])
 
     # ---- Tree.Node.traverse: starts at this node
-    def tn_setup(S):
-        from swcgeom.core.tree import Tree
+    def tn_setup(enter_given, leave_given, mode_given=False):
+        def f(S):
+            from swcgeom.core.tree import Tree
 
-        t = sym_tree(S, "t", frozen=True)
-        i = S.int("idx")
-        S.assume(z3.And(i.z >= 0, i.z < nof(t)))
-        return dict(self=S.obj(Tree.Node, attach=t, idx=i, names=t.fields["names"]), kwargs=PDict(dict(enter=_cb("enter", []), leave=_cb("leave", []))))
+            t = sym_tree(S, "t", frozen=True)
+            i = S.int("idx")
+            S.assume(z3.And(i.z >= 0, i.z < nof(t)))
+            kw = {}
+            if enter_given:
+                kw["enter"] = _cb("enter", [])
+            if leave_given:
+                kw["leave"] = _cb("leave", [])
+            if mode_given:
+                kw["mode"] = "dfs"
+            return dict(self=S.obj(Tree.Node, attach=t, idx=i, names=t.fields["names"]), kwargs=PDict(kw))
+
+        return f
 
     def tn_post(E, v, o):
         calls = [kw for nm, kw in E.call_log if nm == "Tree.traverse"]
         if len(calls) != 1:
             return False
         c = calls[0]
-        kw = c["kwargs"].items
         mine = v["kwargs"].items
-        return z3.And(c["self"] is v["self"].fields["attach"], c["enter"] is mine["enter"], c["leave"] is mine["leave"],
-                      to_z3(kw["root"], "int") == to_z3(v["self"].fields["idx"], "int"), to_z3(v["result"], "oref") == to_z3(c["__result__"], "oref"))
+        return z3.And(c["self"] is v["self"].fields["attach"], _call_arg(c, "enter") is mine.get("enter"), _call_arg(c, "leave") is mine.get("leave"),
+                      _call_arg(c, "mode", "dfs") == mine.get("mode", "dfs"),
+                      _same_int(_call_arg(c, "root", 0), v["self"].fields["idx"]), to_z3(v["result"], "oref") == to_z3(c["__result__"], "oref"))
 
-    R.add(f"{TREE}:Tree.Node.traverse", prop="C04", setup=tn_setup,
+    R.add(f"{TREE}:Tree.Node.traverse", prop="C04",
+          variants={"enter+leave": tn_setup(True, True), "enter-only": tn_setup(True, False), "leave-only": tn_setup(False, True), "enter+leave, mode given": tn_setup(True, True, True)},
           ensures=[("traverses-the-owning-tree-starting-at-this-node", tn_post)])
 
 
@@ -593,6 +919,7 @@ _reg0 = register
 
 def register(R):  # noqa: F811
     _reg0(R)
+    register_fixed(R)
     register_wrappers(R)
 
 
